@@ -220,7 +220,7 @@ def _minimise(eng_name: str, v: dict) -> dict:
 
 
 def load_known() -> list:
-    p = VERIF_ROOT / "known_findings.json"
+    p = Path(os.environ.get("VERIF_KNOWN_FINDINGS") or (VERIF_ROOT / "known_findings.json"))   # env: protocol self-test only
     if not p.exists():
         return []
     data = json.loads(p.read_text())
